@@ -5,6 +5,10 @@ package adaptation
 
 import (
 	"context"
+	"sync"
+	"time"
+
+	"github.com/containerd/nri/pkg/api"
 )
 
 // H_C07_fail: three subscribed plugins; the plugin at an arbitrary position fails with an arbitrary
@@ -182,5 +186,133 @@ func H_C19_runtime_side() {
 		cover("failed")
 	} else {
 		cover("ok")
+	}
+}
+
+// H_C07_timeout_budget: with the request timeout set to 1.5 s and the registration timeout to 7 s, every call
+// to a plugin - each of the 14 request kinds, configuration and synchronization - is made under a timeout
+// context of exactly the request timeout (so a hung plugin costs one request timeout, not more), and
+// configuration tells the plugin both values.
+//verif:property C07
+//verif:instances 16
+//verif:preempt 0
+//verif:expect-cover bounded
+func H_C07_timeout_budget() {
+	const reqT, regT = 1500 * time.Millisecond, 7000 * time.Millisecond
+	SetPluginRequestTimeout(reqT)
+	SetPluginRegistrationTimeout(regT)
+	r, w, _ := newEnvAdaptation([]string{"00", "05"}, []EventMask{ValidEvents, ValidEvents})
+	k := instance()
+	shape("req=" + itoa(k))
+	switch {
+	case k < 14:
+		_, _, err := issue(r, k)
+		vassert(err == nil, "request-error")
+	case k == 14:
+		err := r.plugins[0].configure(context.Background(), "rt", "1", "cfg")
+		vassert(err == nil, "configure-error")
+		if len(w.trace) == 1 {
+			if req, ok := w.trace[0].arg.(*ConfigureRequest); ok {
+				vassert(req.RequestTimeout == 1500 && req.RegistrationTimeout == 7000, "plugin-told-wrong-timeouts")
+			}
+		}
+	default:
+		_, err := r.plugins[0].synchronize(context.Background(), []*PodSandbox{{Id: "p"}}, []*Container{{Id: "c"}})
+		vassert(err == nil, "synchronize-error")
+	}
+	vassert(len(w.trace) >= 1, "no-plugin-call")
+	for _, c := range w.trace {
+		vassert(c.timeout == int64(reqT), "ghost-plugin-call-not-bounded-by-the-request-timeout")
+	}
+	cover("bounded")
+}
+
+// H_C19_no_overlap: one goroutine issues a request of kind k (the nine state-change wrappers, the four
+// request RPCs, a raw StateChange) to an Adaptation with one subscribed plugin whose handler contains a
+// scheduling point; concurrently a plugin relays an unsolicited update whose runtime callback also contains
+// a scheduling point. On every explored schedule (preemption bound 2) the callback never runs while the
+// request's plugin handler is running and no handler starts while the callback runs.
+//verif:property C19
+//verif:instances 14
+//verif:preempt 2
+//verif:expect-cover both-ran
+func H_C19_no_overlap() {
+	r, w, _ := newEnvAdaptation([]string{"00"}, []EventMask{ValidEvents})
+	w.yield = &sync.Mutex{}
+	k := instance()
+	shape("req=" + itoa(k))
+	calls := 0
+	r.updateFn = func(ctx context.Context, u []*ContainerUpdate) ([]*ContainerUpdate, error) {
+		calls++
+		w.inCallback = true
+		if w.inside > 0 {
+			w.overlap = true
+		}
+		w.pause()
+		if w.inside > 0 {
+			w.overlap = true
+		}
+		w.inCallback = false
+		return nil, nil
+	}
+	var wg sync.WaitGroup
+	wg.Add(2)
+	go func() {
+		issue(r, k)
+		wg.Done()
+	}()
+	go func() {
+		r.plugins[0].UpdateContainers(context.Background(), &UpdateContainersRequest{Update: []*ContainerUpdate{{ContainerId: "c1"}}})
+		wg.Done()
+	}()
+	wg.Wait()
+	vassert(calls == 1, "callback-not-invoked-exactly-once")
+	vassert(!w.overlap, "update-callback-overlaps-request-processing")
+	if len(w.trace) > 0 {
+		cover("both-ran")
+	}
+}
+
+// H_C06_two_callers: two goroutines issue requests of different kinds concurrently; two plugins subscribed to
+// everything, handlers with a scheduling point. On every explored schedule (preemption bound 2) the requests
+// never overlap inside plugin handlers and both plugins see the two requests in the same order.
+//verif:property C06
+//verif:instances 14
+//verif:preempt 2
+//verif:expect-cover ordered
+func H_C06_two_callers() {
+	r, w, _ := newEnvAdaptation([]string{"00", "05"}, []EventMask{ValidEvents, ValidEvents})
+	w.yield = &sync.Mutex{}
+	k1 := instance()
+	if k1 == 13 {
+		k1 = 0
+	}
+	k2 := (k1 + 1 + choose(2)*4) % 13
+	shape("req=" + itoa(k1))
+	var ev [2]api.Event
+	var wg sync.WaitGroup
+	wg.Add(2)
+	go func() {
+		ev[0], _, _ = issue(r, k1)
+		wg.Done()
+	}()
+	go func() {
+		ev[1], _, _ = issue(r, k2)
+		wg.Done()
+	}()
+	wg.Wait()
+	vassert(w.maxIn <= 1, "requests-overlap-inside-plugin-handlers")
+	vassert(len(w.trace) == 4, "each-plugin-called-once-per-request")
+	if len(w.trace) == 4 {
+		// plugin 0 and plugin 1 see the two requests in one common order
+		var seen [2][]api.Event
+		for _, c := range w.trace {
+			seen[c.plugin] = append(seen[c.plugin], c.event)
+		}
+		vassert(len(seen[0]) == 2 && len(seen[1]) == 2, "each-plugin-called-once-per-request")
+		if len(seen[0]) == 2 && len(seen[1]) == 2 {
+			vassert(seen[0][0] == seen[1][0] && seen[0][1] == seen[1][1], "plugins-see-requests-in-different-orders")
+		}
+		cover("ordered")
 	}
 }
